@@ -135,11 +135,29 @@ def searchFlushesWith (mf : Evs → List Nat → SM) (evs : Evs) (fs : FS) (q : 
 
 def searchFlushes (evs : Evs) (fs : FS) (q : Query) : List Nat := searchFlushesWith metaOf evs fs q
 
+/-- the cut-off of the LAST round of `getQSRSToProcess` over the sorted list `l` (the cut-offs fall from round to
+round: what is left after a round advertises a start below that round's cut-off) -/
+def lastCutoff : Nat → List SM → Nat → Nat
+  | 0, _, c => c
+  | _ + 1, [], c => c
+  | fuel + 1, F :: rest, _ => lastCutoff fuel ((F :: rest).filter (fun x => !(decide (F.lo ≤ x.lo)))) F.lo
+
 /-- the events a search returns after the restart -/
 def searchWith (mf : Evs → List Nat → SM) (evs : Evs) (fs : FS) (q : Query) : List Ev :=
   (searchFlushesWith mf evs fs q).flatMap (fun f => (evs f).filter (evPass q))
 
 def search (evs : Evs) (fs : FS) (q : Query) : List Ev := searchWith metaOf evs fs q
+
+/-- records a record search has read and can never hand out (searcher.go fetchRRCs: a record is handed out only when
+its timestamp has reached the current cut-off, `unsentRRCs` keeps the rest for a later round; the search ends only
+when `unsentRRCs` is empty): the matching records of the blocks read that lie below the cut-off of the LAST round.
+When there are any, `QueryProcessor.GetFullResult` never sees io.EOF — the query spins for ever. -/
+def stuckWith (mf : Evs → List Nat → SM) (evs : Evs) (fs : FS) (q : Query) : List Ev :=
+  let cand := (metas fs).filter (fun p => rangePass (mf evs p.2) q)
+  let order := (sortQ (cand.map (fun p => (mf evs p.2, p.1)))).map (·.1)
+  (searchWith mf evs fs q).filter (fun e => decide (e.ts < lastCutoff order.length order 0))
+
+def stuck (evs : Evs) (fs : FS) (q : Query) : List Ev := stuckWith metaOf evs fs q
 
 /-- `* | stats count` over a window after the restart: per adopted segment nothing when the advertised range misses
 the window, the advertised RecordCount when the window encloses the advertised range, else the records found by
